@@ -354,6 +354,8 @@ pub enum Op {
     HexNoPrefix,
     /// string: digits in upper case (same bytes, other spelling)
     HexUpper,
+    /// string: the "0x" prefix written twice (not a spelling of any byte string)
+    HexDoublePrefix,
     /// string: "0x" alone (zero bytes)
     HexEmpty,
     /// integer / bool: another integer
@@ -377,7 +379,7 @@ impl Op {
             Op::SetNone => "none",
             Op::HexDropDigit | Op::HexDropFirstDigit | Op::HexBadLast | Op::HexBadFirst => "hex-digits",
             Op::HexDropByte | Op::HexExtraByte | Op::HexEmpty => "hex-length",
-            Op::HexNoPrefix | Op::HexUpper => "hex-spelling",
+            Op::HexNoPrefix | Op::HexUpper | Op::HexDoublePrefix => "hex-spelling",
             Op::IntSet(_) => "int",
             Op::IntFloat | Op::IntString => "int-type",
             Op::ListRemoveFirst | Op::ListRemoveLast | Op::ListAddCopy | Op::ListAddToEmpty(_) => "list-count",
@@ -419,6 +421,7 @@ impl Op {
             "HexBadFirst" => Op::HexBadFirst,
             "HexNoPrefix" => Op::HexNoPrefix,
             "HexUpper" => Op::HexUpper,
+            "HexDoublePrefix" => Op::HexDoublePrefix,
             "HexEmpty" => Op::HexEmpty,
             "IntFloat" => Op::IntFloat,
             "IntString" => Op::IntString,
@@ -485,6 +488,7 @@ pub fn ops_at(j: &J, p: &Path, alphabet: &[String]) -> Vec<Op> {
             }
             if s.starts_with("0x") {
                 ops.push(Op::HexNoPrefix);
+                ops.push(Op::HexDoublePrefix);
             }
             if body.bytes().any(|c| c.is_ascii_lowercase()) {
                 ops.push(Op::HexUpper);
@@ -607,6 +611,12 @@ pub fn apply(j: &J, p: &Path, op: &Op) -> Option<J> {
                     body.to_string()
                 }
                 Op::HexUpper => format!("{prefix}{}", body.to_ascii_uppercase()),
+                Op::HexDoublePrefix => {
+                    if prefix.is_empty() {
+                        return None;
+                    }
+                    format!("0x{s}")
+                }
                 Op::HexEmpty => "0x".to_string(),
                 _ => return None,
             })
